@@ -150,6 +150,7 @@ Next ==
                   ELSE IF e.grp = "levels" THEN C17Levels(e, prev0)
                   ELSE {}
          f     == f02 \cup f17
+                  \cup {c \in {"C02.history_independent", "C17.history_independent"} : "out_fresh" \in DOMAIN e /\ ~SameOut(e.out, e.out_fresh)}
          cs    == IF big THEN BigClauses(e) \cup (IF ~IsRef(e) THEN {"C02.front_end", "C17.entry_points_agree"} ELSE {}) ELSE
                   {"C02.domain", "C02.no_panic", "C02.domain." \o PropDomain(Method(e), e.n, e.k) \o "." \o Method(e)}
                   \cup (IF OkIv(e) THEN {"C02.shape", "C02.in01", "C02.level_echo", "C02.method." \o Method(e),
@@ -162,12 +163,13 @@ Next ==
                         ELSE {})
                   \cup (IF ~IsRef(e) THEN {"C02.front_end", "C02.front_end." \o e.fe, "C17.entry_points_agree"} ELSE {})
                   \cup (IF ~IsRef(e) /\ e.n > 100000 THEN {"C17.entry_points_agree.large_population"} ELSE {})
+                  \cup (IF "tie" \in DOMAIN e /\ e.tie THEN {"C02.ratio_rounding_tie"} ELSE {})
                   \cup (IF IsRef(e) /\ e.grp = "row" THEN C17RowClauses(e, rows0) ELSE {})
                   \cup (IF IsRef(e) /\ e.grp = "mult" /\ OkIv(e) /\ prev0 # <<>> THEN {"C17.shrinks_with_n"} ELSE {})
                   \cup (IF IsRef(e) /\ e.grp = "levels" /\ OkIv(e) /\ prev0 # <<>> THEN {"C17.wider_with_level"} ELSE {})
      IN /\ (f # {}) => PrintT("BAD " \o ToJson([id |-> e.id, failed |-> f]))
         /\ nbad' = nbad + (IF f = {} THEN 0 ELSE 1)
-        /\ cov' = Bump(cov, cs)
+        /\ cov' = Bump(cov, cs \cup (IF "out_fresh" \in DOMAIN e THEN {"C02.history_independent", "C17.history_independent"} ELSE {}))
         /\ ref' = IF IsRef(e) THEN e.out ELSE ref
         /\ rows' = IF ~big /\ IsRef(e) /\ OkIv(e) /\ e.grp = "row"
                    THEN [rows0 EXCEPT ![e.conf.kind] = (e.k :> <<Lo(e), Hi(e)>>) @@ rows0[e.conf.kind]]
